@@ -202,7 +202,13 @@ func (pc *PacketConn) SubscribeUnreachable(doneChan chan struct{}) chan Unreacha
 			if !ok {
 				continue
 			}
-			uChan <- msg
+			// A subscriber that has closed doneChan no longer reads uChan: do not wait for it, or the
+			// broker (and behind it the whole node's unreachable handling) waits with us forever.
+			select {
+			case uChan <- msg:
+			case <-doneChan:
+			case <-pc.context.Done():
+			}
 		}
 	}()
 
